@@ -355,13 +355,19 @@ def reof (s : St) (si : BitVec 16) : St × List (Nat × RRes) :=
     let s1 := setRd s si w.1
     ({ s1 with sstate := fun k => if k = si ∧ s.sstate si = (StreamStateClosing : Int) then (StreamStateClosed : Int) else s1.sstate k }, w.2)
 
+/-- the read-deadline timer of a stream has reached its instant -/
+def timerDue (r : RStream) (now : Nat) : Bool :=
+  match r.timer with
+  | some t => decide (t ≤ now)
+  | none => false
+
 /-- read-deadline timers that are due, stream by stream -/
 def fireTimers (s : St) : List (BitVec 16) → St × List (Nat × RRes)
   | [] => (s, [])
   | si :: rest =>
     match s.rd si with
     | some r =>
-      if (match r.timer with | some t => decide (t ≤ s.snd.now) | none => false) then
+      if timerDue r s.snd.now then
         let f := fireTimer r
         let x := fireTimers (setRd s si f.1) rest
         (x.1, f.2 ++ x.2)
